@@ -39,3 +39,20 @@ package cstate
 //@   opt assumecallreqs
 //@   atcall ValidatorSet.IncrementProposerPriority requires [rotateAfterChangeSet] times == 1 && (len(validatorUpdates) > 0 ==> lastHeightValsChanged == toUint64(old(header.Height) + 2))
 //@   atcall ValidatorSet.UpdateWithChangeSet requires [changeSetOnTheCopy] vs == nValSet && vs != state.NextValidators
+
+// ---------------------------------------------------------------- C14: pruning keeps what kept states need
+// PruneState deletes the state records of [from, to) and the validator-set records only they
+// reference. No record referenced by a state that is kept may be deleted: the genesis state, the
+// first kept state (height `to`), and every later state.
+//@ func (s *dbStore) PruneState(from, to uint64) (prunedStates uint64, prunedValInfos uint64, prunedBytes uint64)
+//@   for C14
+//@   requires s != nil
+//@   atcall DeleteConsensusStateHeight requires [onlyRequestedRange] height >= 1 && height >= from && height < to
+//@   atcall DeleteConsensusValidatorsInfo requires [firstKeptStateProtected] rawdb.cstateAt(s.db, to) != nil ==> hash != common.hashOfBytes(content(rawdb.cstateAt(s.db, to).LastValidatorsInfoHash)) && hash != common.hashOfBytes(content(rawdb.cstateAt(s.db, to).ValidatorsInfoHash)) && hash != common.hashOfBytes(content(rawdb.cstateAt(s.db, to).NextValidatorsInfoHash))
+//@   atcall DeleteConsensusValidatorsInfo requires [genesisProtected] rawdb.cstateAt(s.db, 0) != nil ==> hash != common.hashOfBytes(content(rawdb.cstateAt(s.db, 0).LastValidatorsInfoHash)) && hash != common.hashOfBytes(content(rawdb.cstateAt(s.db, 0).ValidatorsInfoHash)) && hash != common.hashOfBytes(content(rawdb.cstateAt(s.db, 0).NextValidatorsInfoHash))
+//@   atcall DeleteConsensusValidatorsInfo requires [everyKeptStateProtected] forall h uint64 :: h > to && rawdb.cstateAt(s.db, h) != nil ==> hash != common.hashOfBytes(content(rawdb.cstateAt(s.db, h).LastValidatorsInfoHash)) && hash != common.hashOfBytes(content(rawdb.cstateAt(s.db, h).ValidatorsInfoHash)) && hash != common.hashOfBytes(content(rawdb.cstateAt(s.db, h).NextValidatorsInfoHash))
+//@   loop 1:
+//@     invariant from >= 1 && i >= from
+//@   loop 2:
+//@     invariant rawdb.cstateAt(s.db, to) != nil ==> !has(valInfosCache, common.hashOfBytes(content(rawdb.cstateAt(s.db, to).LastValidatorsInfoHash))) && !has(valInfosCache, common.hashOfBytes(content(rawdb.cstateAt(s.db, to).ValidatorsInfoHash))) && !has(valInfosCache, common.hashOfBytes(content(rawdb.cstateAt(s.db, to).NextValidatorsInfoHash)))
+//@     invariant rawdb.cstateAt(s.db, 0) != nil ==> !has(valInfosCache, common.hashOfBytes(content(rawdb.cstateAt(s.db, 0).LastValidatorsInfoHash))) && !has(valInfosCache, common.hashOfBytes(content(rawdb.cstateAt(s.db, 0).ValidatorsInfoHash))) && !has(valInfosCache, common.hashOfBytes(content(rawdb.cstateAt(s.db, 0).NextValidatorsInfoHash)))
